@@ -121,15 +121,15 @@ theorem fieldOk_bad_u8 (props : List (Str × List Str)) (f v : Str)
 
 /-- a boolean parameter that is none of `1 true yes ok 0 false no` (case-insensitive, trimmed) is an error -/
 theorem fieldOk_bad_bool (props : List (Str × List Str)) (f v : Str) (h : lookupProp props f = some [v])
-    (hw : ∀ w ∈ ["1", "true", "yes", "ok", "0", "false", "no"], lower (trimAscii v) ≠ w.toList) :
+    (hw : ∀ w ∈ ["1", "true", "yes", "ok", "0", "false", "no"], lower (trimWs v) ≠ w.toList) :
     fieldOk props f .bool = false := by
-  have h1 : lower (trimAscii v) ≠ ['1'] := hw "1" (by simp)
-  have h2 : lower (trimAscii v) ≠ ['t', 'r', 'u', 'e'] := hw "true" (by simp)
-  have h3 : lower (trimAscii v) ≠ ['y', 'e', 's'] := hw "yes" (by simp)
-  have h4 : lower (trimAscii v) ≠ ['o', 'k'] := hw "ok" (by simp)
-  have h5 : lower (trimAscii v) ≠ ['0'] := hw "0" (by simp)
-  have h6 : lower (trimAscii v) ≠ ['f', 'a', 'l', 's', 'e'] := hw "false" (by simp)
-  have h7 : lower (trimAscii v) ≠ ['n', 'o'] := hw "no" (by simp)
+  have h1 : lower (trimWs v) ≠ ['1'] := hw "1" (by simp)
+  have h2 : lower (trimWs v) ≠ ['t', 'r', 'u', 'e'] := hw "true" (by simp)
+  have h3 : lower (trimWs v) ≠ ['y', 'e', 's'] := hw "yes" (by simp)
+  have h4 : lower (trimWs v) ≠ ['o', 'k'] := hw "ok" (by simp)
+  have h5 : lower (trimWs v) ≠ ['0'] := hw "0" (by simp)
+  have h6 : lower (trimWs v) ≠ ['f', 'a', 'l', 's', 'e'] := hw "false" (by simp)
+  have h7 : lower (trimWs v) ≠ ['n', 'o'] := hw "no" (by simp)
   simp [fieldOk, getBool, getProperty, h, h1, h2, h3, h4, h5, h6, h7]
 
 theorem fieldOk_bad_array (props : List (Str × List Str)) (f : Str) (vs : List Str)
